@@ -197,6 +197,10 @@ def _eval_component(ref, comp, values, phys_dt, ctx, column, rowkeys, where="col
     comp = S.full(comp)
     n = len(values)
     dm = dtype_match(comp["dtype"], phys_dt, values)
+    if dm == "bad" and comp.get("default") is not None and phys_dt == "object":
+        # filling the default into an object column (Series.fillna) lets pandas downcast the object array -- e.g. to int64 when it
+        # holds python ints --, so which physical type the type check sees afterwards is pandas' doing, not settled by pandera's docs
+        dm = "unspec"
     dtype_bad = False
     if dm == "bad":
         ref.add_frame("dtype", "schema", ctx, column, phys_dt)
